@@ -17,12 +17,12 @@ TECHNIQUE = "numpy differential over all shapes <=3x3 / vectors <=4 with LINE-co
 RULE = ("shapes: vectors 1-4, matrices r x c with r,c in 1..3 (13 shapes). elementwise + - * /: all 169 shape pairs x element kinds "
         "(converter/constant/stock) + array-scalar and scalar-array forms + named vectors/matrices (matching and mismatching names); "
         "dot: all 169 shape pairs; aggregates sum prod mean median stddev rank size on every shape; nested two-operator forms; dot products whose operand is an arrayed expression, arrays combined with scalar dot products, aggregates over clamped flows / stocks with rates / re-assigned entries, matrices re-dimensioned after a first use; vector dot products of all 16 length pairs under 11 scalar wrappers (abs max min ** > If round neg + * sqrt); "
-        "results read through element[i](t), element[i][j](t) and plot(return_df). value draws: 2 (quick) / 6 (thorough) incl. negatives. "
+        "arrayed stocks fed by arrayed expressions of time-varying members (two Euler steps); named stocks fed by named expressions / flows with another name order or other names; results read through element[i](t), element[i][j](t) and plot(return_df). value draws: 2 (quick) / 6 (thorough) incl. negatives. "
         "distinct_nontrivial = distinct (form, shapes, kinds) combinations that were accepted and whose numpy result has at least two "
         "different entries (or is a scalar aggregate of >=2 different entries).")
 ASSUMPTIONS = ["arr_size is judged on vectors only (for a matrix the library documents 'number of rows', numpy .size is rows*cols: ambiguous)",
                "an exception anywhere between construction and evaluation is 'rejected', allowed by the property for supported and unsupported forms alike"]
-REQUIRED = {"accepted_equal": 300, "rejected_mismatch": 100, "entries_compared": 2000}
+REQUIRED = {"named_stock_entries": 15, "arrayed_stock_entries_over_time": 30, "accepted_equal": 300, "rejected_mismatch": 100, "entries_compared": 2000}
 BUDGET_S = {"quick": 100, "thorough": 1200}
 
 VEC = [(n,) for n in (1, 2, 3, 4)]
@@ -35,6 +35,8 @@ DOTEXPR = ["M.dot(A+B)", "M.dot((A+B)*2.0)", "(A+B).dot(C)", "A.dot(B+C)", "M.do
            "A.dot(B) - V", "V * A.dot(B)", "M.dot(N+N)", "(M+M).dot(A)",
            # a matrix combined element-wise with a vector-valued dot product: numpy broadcasts (2,2) with (2,) along the last axis and rejects (2,3) with (2,)
            "W - M.dot(A)", "W + M.dot(A)", "W * M.dot(A)", "W / M.dot(A)", "X - M.dot(A)", "X + M.dot(A)", "X * M.dot(A)", "X / M.dot(A)", "M.dot(A) - X", "V - M.dot(A)", "X - X.dot(C3)"]
+STOCK_TV = ["M.dot(A+T)", "A.dot(N+TN)", "M.dot(N+TN)", "A+T", "A*T", "M.dot(A)", "(A-T)*2.0", "M.dot(2.0*T)", "N.dot(TN)", "A/(T+10.0)"]
+NAMED_STOCK = ["NB-NA", "flow:NB/NA", "NA+NB", "flow:NA*NB", "mismatch:flow", "mismatch:indexed", "same-order:NA-NA2"]
 WRAPPERS = ["abs", "max0", "min9", "pow2", "gt0", "if", "round", "neg", "plus", "times", "sqrtabs"]
 
 
@@ -113,6 +115,12 @@ def gen_cases(tier, seed):
         # an array that is re-dimensioned after it has been used once
         for tmpl in ("redim_dot_ok", "redim_dot_mismatch", "redim_rank", "redim_sum"):
             cases.append(dict(form="redim", tmpl=tmpl, draw=d))
+        # arrayed STOCKS whose equation is an arrayed expression of time-varying members (two Euler steps)
+        for tmpl in STOCK_TV:
+            cases.append(dict(form="stock_tv", tmpl=tmpl, draw=d))
+        # named arrayed stocks fed by named expressions / flows whose names come in another order, or do not match
+        for tmpl in NAMED_STOCK:
+            cases.append(dict(form="named_stock", tmpl=tmpl, draw=d))
         for s1 in SHAPES:
             for agg in AGGS:
                 ranks = [-1, 1, 2, 99] if agg == "rank" else [None]
@@ -197,8 +205,121 @@ class ShapeMismatch(Exception):
     pass
 
 
+def run_stock_tv(case):
+    """Vector / matrix stocks whose equation is an arrayed expression over members that move with time: after two Euler steps
+    (dt=1 from t=0) every entry must be 1 + expr(0) + expr(1) as numpy computes it."""
+    from BPTK_Py import Model
+    import BPTK_Py.sddsl.functions as F
+    d = case["draw"]
+    m = Model(starttime=0.0, stoptime=3.0, dt=1.0, name="arrtv")
+    base = dict(A=values([2], d, 41), T=values([2], d, 42), M=values([2, 2], d, 43), N=values([2, 2], d, 44), TN=values([2, 2], d, 45))
+    slope = dict(A=values([2], d, 46), T=values([2], d, 47), M=np.zeros((2, 2)), N=values([2, 2], d, 48), TN=values([2, 2], d, 49))
+
+    def at(t):
+        return {k: base[k] + slope[k] * t for k in base}
+    tmpl = case["tmpl"]
+    pyexpr = tmpl.replace(".dot(", "@(")
+    with np.errstate(all="ignore"):
+        e0, e1 = eval(pyexpr, {}, at(0.0)), eval(pyexpr, {}, at(1.0))
+    expected = 1.0 + np.asarray(e0, dtype=float) + np.asarray(e1, dtype=float)
+    counters = {}
+    try:
+        E = {}
+        for k in base:
+            el = m.converter(k)
+            if base[k].ndim == 1:
+                el.setup_vector(2, [0.0, 0.0])
+                for i in range(2):
+                    el[i].equation = float(base[k][i]) + F.time() * float(slope[k][i])
+            else:
+                el.setup_matrix([2, 2], [[0.0, 0.0], [0.0, 0.0]])
+                for i in range(2):
+                    for j in range(2):
+                        el[i][j].equation = float(base[k][i][j]) + F.time() * float(slope[k][i][j])
+            E[k] = el
+        res = m.stock("S")
+        if expected.ndim == 1:
+            res.setup_vector(2, [1.0, 1.0])
+        else:
+            res.setup_matrix([2, 2], [[1.0, 1.0], [1.0, 1.0]])
+        res.equation = eval(tmpl, {}, E)
+        got = read(res, expected.shape, 2.0)
+    except ShapeMismatch as e:
+        return dict(verdict="violated", counters=counters, mech="shape", witness=dict(case=case, error=str(e)))
+    except Exception as e:
+        counters["rejected_supported"] = 1
+        return dict(verdict="rejected", counters=counters, sample=dict(case=case, why="%s: %s" % (type(e).__name__, str(e)[:100])))
+    counters["entries_compared"] = int(expected.size)
+    counters["arrayed_stock_entries_over_time"] = int(expected.size)
+    if not np.allclose(got, expected, rtol=1e-9, atol=1e-12):
+        return dict(verdict="violated", counters=counters, mech="value:stock_tv", witness=dict(case=case, expected=expected.tolist(), got=got.tolist()))
+    counters["accepted_equal"] = 1
+    return dict(verdict="held", nt="stock_tv:" + tmpl, counters=counters)
+
+
+def run_named_stock(case):
+    """A named arrayed stock fed by a named expression / flow: entries are paired BY NAME (whatever the order in which the operands
+    declare their names); names that do not match are rejected."""
+    from BPTK_Py import Model
+    m = Model(starttime=0.0, stoptime=3.0, dt=1.0, name="arrnamed")
+    d = case["draw"]
+    va = {"north": 2.0 + d, "south": 3.5, "west": -1.0}
+    vb = {"west": 10.0, "north": 4.0, "south": 0.5 + d}          # another declaration order
+    NA, NB, NA2 = m.converter("NA"), m.converter("NB"), m.converter("NA2")
+    NA.setup_named_vector(dict(va))
+    NB.setup_named_vector(dict(vb))
+    NA2.setup_named_vector({"north": 1.0, "south": 1.0, "west": 1.0})
+    S = m.stock("S")
+    S.setup_named_vector({"north": 1.0, "south": 1.0, "west": 1.0})
+    tmpl = case["tmpl"]
+    counters = {}
+    ops = {"NB-NA": lambda a, b: b - a, "NB/NA": lambda a, b: b / a, "NA+NB": lambda a, b: a + b, "NA*NB": lambda a, b: a * b}
+    expected = None
+    try:
+        if tmpl.startswith("mismatch"):
+            if tmpl == "mismatch:flow":
+                fl = m.flow("fl")
+                fl.setup_named_vector({"north": 1.0, "south": 2.0, "east": 3.0})
+                S.equation = fl
+            else:
+                ix = m.converter("ix")
+                ix.setup_vector(3, [1.0, 2.0, 3.0])
+                S.equation = ix + ix
+        elif tmpl == "same-order:NA-NA2":
+            S.equation = NA - NA2
+            expected = {n: 1.0 + 2 * (va[n] - 1.0) for n in va}
+        else:
+            name = tmpl.split(":")[-1]
+            dsl = {"NB-NA": lambda: NB - NA, "NB/NA": lambda: NB / NA, "NA+NB": lambda: NA + NB, "NA*NB": lambda: NA * NB}[name]()
+            if tmpl.startswith("flow:"):
+                fl = m.flow("fl")
+                fl.setup_named_vector({"west": 0.0, "north": 0.0, "south": 0.0})
+                fl.equation = dsl
+                S.equation = fl
+                expected = {n: 1.0 + 2 * max(0.0, ops[name](va[n], vb[n])) for n in va}
+            else:
+                S.equation = dsl
+                expected = {n: 1.0 + 2 * ops[name](va[n], vb[n]) for n in va}
+        got = {n: float(S[n](2.0)) for n in ("north", "south", "west")}
+    except Exception as e:
+        counters["rejected_mismatch" if expected is None else "rejected_supported"] = 1
+        return dict(verdict="rejected", counters=counters, sample=dict(case=case, why="%s: %s" % (type(e).__name__, str(e)[:100])))
+    if expected is None:
+        return dict(verdict="violated", counters=counters, mech="mismatch-accepted", witness=dict(case=case, got=got))
+    counters["entries_compared"] = 3
+    counters["named_stock_entries"] = 3
+    if any(abs(got[n] - expected[n]) > 1e-9 * max(1.0, abs(expected[n])) for n in expected):
+        return dict(verdict="violated", counters=counters, mech="value:named_stock", witness=dict(case=case, expected=expected, got=got))
+    counters["accepted_equal"] = 1
+    return dict(verdict="held", nt="named_stock:" + tmpl, counters=counters)
+
+
 def run_case(case):
     from BPTK_Py import Model
+    if case["form"] == "stock_tv":
+        return run_stock_tv(case)
+    if case["form"] == "named_stock":
+        return run_named_stock(case)
     counters = {}
     before = len(_cov["lines"])
     m = Model(starttime=0.0, stoptime=3.0, dt=1.0, name="arr")
